@@ -5,6 +5,7 @@ import DinoProofs.Lemmas.ShardGarbage
 import DinoProofs.Lemmas.ShardBlock
 import DinoProofs.Lemmas.ShardArrays
 import DinoProofs.Lemmas.ShardEinsum
+import DinoProofs.Lemmas.ShardEinsumMat
 import DinoProofs.Properties.C15
 import Mathlib.Algebra.Order.Floor.Ring
 
@@ -521,6 +522,105 @@ example :
   decide +kernel
 
 end einsum
+
+/-! ## from the plan to the collectives: `sharded_einsum` on the matrix pattern (PARTIAL)
+
+`plan_spec` characterises the *decisions* of `sharded_einsum`, the `…_unsharded` theorems *assume* the block layout
+`colChunk (rowChunk A a r) c k` / `rowChunk (colChunk A s k) a r` / `splitEvery k B`.  `Dino.ShardEinsum.shardedEinsumMat`
+(`Dino/ShardEinsumMat.lean`, driver op `shard F semat`, compared with the real `sharded_einsum` by the harness) mirrors
+what lies between them for two 2-D operands on a one-axis mesh: the `shard_map` blocks cut by `lhs_spec` / `rhs_spec`
+and the `dynamic_slice_in_dim` chunks of size `block.shape[axis] // axis_size` along `split_axis` / `scatter_axis`. -/
+
+section composed
+open Dino.ShardEinsum Dino.Lin
+variable {K : Type} [CommRing K]
+
+/-- **`sharded_einsum = einsum` in the model — PARTIAL: the matrix pattern only.**
+
+ FULL STATEMENT (NOT proved; covered by the schedule trace and the sharded-vs-unsharded differential of the harness):
+ for every subscripts string, operand shapes of any rank (batch letters), `gather_inputs`, `rhs_spec`, `out_spec`
+ accepted by `plan` on a mesh whose reduce axis has size 1 or even, the per-device results of the collective selected
+ by the plan, run on the `shard_map` blocks of `lhs` (cut by `p.lhsSpec`) and `rhs` (cut by `rhs_spec`) with the chunks
+ `dynamic_slice_in_dim(block, c · size, size, p.axis)`, are the `out_spec` blocks of `einsum2 dims l r o lhs rhs`.
+
+ PROVED HERE: two 2-D operands, subscripts `"ik,kj->ij"` for any three distinct ASCII word letters, one mesh axis
+ `name` of size `n` (`1` or even), `rhs_spec = out_spec = P(name, None)`, `A : (n·r) × (n·kk)`, `B : (n·kk) × w`,
+ every `gather_inputs` (explicit or by data volume).  Then `plan` succeeds, the chunking it induces IS the
+ `rowChunk` / `colChunk` / `splitEvery` chunking of `allgatherMatmul_unsharded` / `matmulReducescatter_unsharded`, device
+ `a` ends with rows chunk `a` of `A · B` (entrywise, and as an `r × w` array), and `A · B` is `einsum2` of the pattern. -/
+theorem shardedEinsum_matrix_partial (i k j : Char) (hi : isWord i = true) (hk : isWord k = true)
+    (hj : isWord j = true) (hik : i ≠ k) (hkj : k ≠ j) (hij : i ≠ j) (name : String) (g : Option Bool)
+    (A B : List (List K)) (n kk r w : Nat) (hn : n = 1 ∨ (n % 2 = 0 ∧ 0 < n)) (hkk : 0 < kk)
+    (hA : A.length = n * r) (hB : B.length = n * kk) (hw : ∀ row ∈ B, row.length = w) :
+    ∃ p, plan (joinSubscripts [i, k] [k, j] [i, j]) [n * r, n * kk] [n * kk, w] g [some name, none] [some name, none]
+          = .ok p
+      ∧ shardedEinsumMat (mmEnt w) p n (n * r, n * kk) (n * kk) A B
+          = some ((List.range n).map fun a => ent2 (rowChunk (matMul A B w) a r))
+      ∧ (shardedEinsumMat (mmShaped r w) p n (n * r, n * kk) (n * kk) A B).map (fun devs => devs.map ShapedMat.val)
+          = some ((List.range n).map fun a => rowChunk (matMul A B w) a r)
+      ∧ ∀ (dims : Char → Nat), B.length ≤ dims k → ∀ env,
+          einsum2 dims [i, k] [k, j] [i, j] (matOperand A) (matOperand B) env
+            = ent2 (matMul A B w) (env i) (env j) := by
+  have hn0 : 0 < n := by rcases hn with rfl | ⟨_, h⟩ <;> omega
+  refine ⟨_, plan_matrix i k j hi hk hj hik hkj hij name _ _ g, ?_, ?_,
+    fun dims hd env => einsum2_matrix i k j (isWord_ascii k hk) hik hkj dims A B w hw hd env⟩
+  · unfold shardedEinsumMat matrixPlan
+    cases chooseGather g (prodL (outShape [i, k] [k, j] [i, j] [n * r, n * kk] [n * kk, w])) (prodL [n * kk, w])
+    · simp only [Bool.false_eq_true, if_false, Nat.mul_div_cancel_left kk hn0]
+      rw [show (fun d c => sliceAxis 0 (shardBlock [none, some name] name n (n * r, n * kk) A d) c
+            (shapeAt (blockShape [none, some name] name n (n * r, n * kk)) 0 / n))
+          = fun s a => rowChunk (colChunk A s kk) a r from by
+        funext s a; exact chunks_scatter name n kk r hn0 A s a]
+      exact matmulReducescatter_unsharded A B n kk r w hn hkk hB hw
+    · simp only [if_true, Nat.mul_div_cancel_left kk hn0]
+      rw [show (fun d c => sliceAxis 1 (shardBlock [some name, none] name n (n * r, n * kk) A d) c
+            (shapeAt (blockShape [some name, none] name n (n * r, n * kk)) 1 / n))
+          = fun a c => colChunk (rowChunk A a r) c kk from by
+        funext a c; exact chunks_gather name n kk r hn0 A a c]
+      exact allgatherMatmul_unsharded A B n kk r w hn hkk hB hw
+  · unfold shardedEinsumMat matrixPlan
+    cases chooseGather g (prodL (outShape [i, k] [k, j] [i, j] [n * r, n * kk] [n * kk, w])) (prodL [n * kk, w])
+    · simp only [Bool.false_eq_true, if_false, Nat.mul_div_cancel_left kk hn0]
+      rw [show (fun d c => sliceAxis 0 (shardBlock [none, some name] name n (n * r, n * kk) A d) c
+            (shapeAt (blockShape [none, some name] name n (n * r, n * kk)) 0 / n))
+          = fun s a => rowChunk (colChunk A s kk) a r from by
+        funext s a; exact chunks_scatter name n kk r hn0 A s a]
+      exact matmulReducescatter_unsharded_arrays A B n kk r w hn hkk hA hB hw
+    · simp only [if_true, Nat.mul_div_cancel_left kk hn0]
+      rw [show (fun d c => sliceAxis 1 (shardBlock [some name, none] name n (n * r, n * kk) A d) c
+            (shapeAt (blockShape [some name, none] name n (n * r, n * kk)) 1 / n))
+          = fun a c => colChunk (rowChunk A a r) c kk from by
+        funext a c; exact chunks_gather name n kk r hn0 A a c]
+      exact allgatherMatmul_unsharded_arrays A B n kk r w hn hkk hA hB hw
+
+/-- non-vacuity: `sharded_einsum('ik,kj->ij', aEx, bEx', rhs_spec=P('x', None), out_spec=P('x', None))` on 2 devices,
+ default strategy (the volumes 2·2 vs 4·2 select reduce-scatter) and forced gather; the per-device arrays -/
+example : plan "ik,kj->ij".toList [2, 4] [4, 2] none [some "x", none] [some "x", none]
+      = .ok (matrixPlan 'i' 'k' "x" false)
+    ∧ plan "ik,kj->ij".toList [2, 4] [4, 2] (some true) [some "x", none] [some "x", none]
+      = .ok (matrixPlan 'i' 'k' "x" true) := by
+  constructor <;> decide +kernel
+
+example : (shardedEinsumMat (mmShaped 1 2) (matrixPlan 'i' 'k' "x" false) 2 (2, 4) 4 aEx bEx').map
+      (fun devs => devs.map ShapedMat.val) = some [[[11, 17]], [[27, 37]]]
+    ∧ (shardedEinsumMat (mmShaped 1 2) (matrixPlan 'i' 'k' "x" true) 2 (2, 4) 4 aEx bEx').map
+      (fun devs => devs.map ShapedMat.val) = some [[[11, 17]], [[27, 37]]] := by
+  obtain ⟨p, hp, _, h3, _⟩ := shardedEinsum_matrix_partial 'i' 'k' 'j' (by decide) (by decide) (by decide) (by decide)
+    (by decide) (by decide) "x" (some false) aEx bEx' 2 2 1 2 (Or.inr ⟨rfl, by omega⟩) (by omega) rfl rfl (by decide)
+  obtain ⟨q, hq, _, h3', _⟩ := shardedEinsum_matrix_partial 'i' 'k' 'j' (by decide) (by decide) (by decide) (by decide)
+    (by decide) (by decide) "x" (some true) aEx bEx' 2 2 1 2 (Or.inr ⟨rfl, by omega⟩) (by omega) rfl rfl (by decide)
+  have hp' : p = matrixPlan 'i' 'k' "x" false := by
+    have : plan "ik,kj->ij".toList [2 * 1, 2 * 2] [2 * 2, 2] (some false) [some "x", none] [some "x", none]
+        = .ok (matrixPlan 'i' 'k' "x" false) := by decide +kernel
+    exact (Except.ok.inj (hp.symm.trans this))
+  have hq' : q = matrixPlan 'i' 'k' "x" true := by
+    have : plan "ik,kj->ij".toList [2 * 1, 2 * 2] [2 * 2, 2] (some true) [some "x", none] [some "x", none]
+        = .ok (matrixPlan 'i' 'k' "x" true) := by decide +kernel
+    exact (Except.ok.inj (hq.symm.trans this))
+  subst hp' hq'
+  refine ⟨h3.trans ?_, h3'.trans ?_⟩ <;> decide +kernel
+
+end composed
 
 /-! ## T7.3 — the parallel prefix sum -/
 
